@@ -37,7 +37,7 @@ CHECKS = {
    technique="runtime monitoring: /proc process-state monitor over enumerated start-failure causes"),
  "C06": dict(
    category="exploration",
-   text="Runtime monitor: rounds of 1-64 concurrently outstanding distinct ids on a real in-process net/rpc plugin connection (both directions, accept-first/dial-first, gaps inside the window, ids around the uint32 wrap, an Accept held (hook point) between pick-up and acknowledgement across the expiry instant of the parked dial, pairs on ids that were used before and straddle the earlier dial's 5 s mark, one-way transfers whose reader starts 6 s after the sender closed, concurrent Dispense traffic incl. dispenses whose reserved id crosses the wrap and dispenses of a plugin whose Server() fails, seeded jitter at the mux hook points, race detector on); each end records the unique token and PRNG payload it read; the offline oracle checks the dial(id)<->accept(id) bijection, byte-exact payloads, no failure inside the window, and that every Dispense reaches a distinct server object of the requested name.",
+   text="Runtime monitor: rounds of 1-64 concurrently outstanding distinct ids on a real in-process net/rpc plugin connection (both directions, accept-first/dial-first, gaps inside the window, ids around the uint32 wrap, an Accept held (hook point) between pick-up and acknowledgement across the expiry instant of the parked dial, pairs on ids that were used before and straddle the earlier dial's 5 s mark, one-way transfers whose reader starts 6 s after the sender closed, 1 MiB payloads on connections that have been open for 6.5 s, concurrent Dispense traffic incl. dispenses whose reserved id crosses the wrap and dispenses of a plugin whose Server() fails, seeded jitter at the mux hook points, race detector on); each end records the unique token and PRNG payload it read; the offline oracle checks the dial(id)<->accept(id) bijection, byte-exact payloads, no failure inside the window, and that every Dispense reaches a distinct server object of the requested name.",
    design_ref="DESIGN.md section 3, C06",
    note="Both ends in one process via plugin.TestPluginRPCConn; gaps kept >= 1 s inside the 5 s window.",
    technique="runtime monitoring: unique-token routing oracle over recorded accept/dial events, hook-point jitter, race detector"),
@@ -91,7 +91,7 @@ CHECKS = {
    technique="runtime monitoring: prefix-of-regenerated-stream oracle over self-describing frames, race detector on both processes"),
  "C12": dict(
    category="exploration",
-   text="Runtime monitor with hostile peers: for every connection path (main listeners of all three protocols incl. a race for the multiplexed listener's single session, plugin-side and host-side brokered gRPC listeners reached by their sockets and, with and without multiplexing, over the legitimate session through DialWithOptions with replaced transport credentials) intruders with five credential classes speak the real wire protocol and any answered RPC is a violation, while a positive control by the legitimate peer must succeed in the same case; plugins started directly with PLUGIN_CLIENT_CERT in eight unusual shapes are attacked the same way; a plugin with a TLSProvider of its own launched by an AutoMTLS host must either be unusable for that host or refuse the intruders; impostor plugins announce one certificate and serve another (or plaintext, or another leaf with the announced certificate appended to its chain) with the real protocol and any completed host RPC is a violation.",
+   text="Runtime monitor with hostile peers: for every connection path (main listeners of all three protocols incl. a race for the multiplexed listener's single session, plugin-side and host-side brokered gRPC listeners reached by their sockets and, with and without multiplexing, over the legitimate session through DialWithOptions with replaced transport credentials) intruders with five credential classes speak the real wire protocol and any answered RPC is a violation, while a positive control by the legitimate peer must succeed in the same case; plugins started directly with PLUGIN_CLIENT_CERT in eight unusual shapes are attacked the same way; a plugin with a TLSProvider of its own launched by an AutoMTLS host must either be unusable for that host or refuse the intruders; an impostor certificate at a brokered address must be refused also on gRPC's reconnects; impostor plugins announce one certificate and serve another (or plaintext, or another leaf with the announced certificate appended to its chain) with the real protocol and any completed host RPC is a violation.",
    design_ref="DESIGN.md section 3, C12",
    note="Samples credential classes with fresh keys per case; cases without a successful positive control are inconclusive.",
    technique="runtime monitoring: intruder/impostor probes with positive controls against real AutoMTLS plugin processes"),
